@@ -456,7 +456,10 @@ def main(check: Check, argv):
     broken = []
     lean = {"obligations": 0, "discharged": 0, "broken": [], "build_ok": False, "theorems": [], "axioms": {}, "detail": ""}
     if not args.no_lean:
-        rc, out = extract(check.gen)
+        if check.gen:
+            rc, out = extract(check.gen)
+        else:  # no generated part: never run other properties' generators
+            rc, out = 0, "extract: no generated tables for this property"
         log(out.strip().split("\n")[-1] if out.strip() else "extract: (no output)")
         if rc != 0:
             lean["broken"] = ["<extract> " + out[-2000:]]
